@@ -347,8 +347,8 @@ def c17(run):
                 "U+30000, U+10FFFF and a stride sweep of U+0000..U+10FFFF (full sweep in the thorough tier); From<&str>/"
                 "From<String>/parse_smt_literal on strings mixing those characters; From<u32>/<&[u32]>/<&[u32;N]>/"
                 "<Vec<u32>> on boundary and random integers; each result is also turned into a regular expression; "
-                "plus the result of every str_* call of the C06/C09 traces, every literal of the C08 trace and every "
-                "get_string of the C05 trace; non-trivial = distinct record with an out-of-range input")
+                "plus the result of every str_* call of the C06/C09 traces, every literal of the C08 trace, every "
+                "get_string of the C05 trace and every regex replace of the C10 trace; non-trivial = distinct record with an out-of-range input")
     out, info = _drive(run, "c17")
     need = {v: (lambda r, v=v: r.get("via") == v) for v in ["str", "string", "char", "slice", "vec", "array", "u32", "literal"]}
     need["char_above_max"] = lambda r: r.get("op") == "chars" and any(x > core.MAXCHAR for x in r["in"])
@@ -365,6 +365,9 @@ def c17(run):
                  ["C17:"], workers=workers(run), nontrivial=lambda r: False)
     o5, _ = _drive(run, "c05")
     run.validate("c05_empty", os.path.join(o5, "c05_empty.ndjson"), "Trace_Regex", "Trace_Regex.cfg",
+                 ["C17:"], workers=workers(run), nontrivial=lambda r: False, timeout=1500)
+    o10, _ = _drive(run, "c10")
+    run.validate("c10_replace", os.path.join(o10, "c10_replace.ndjson"), "Trace_Regex", "Trace_Regex.cfg",
                  ["C17:"], workers=workers(run), nontrivial=lambda r: False, timeout=1500)
     run.extra["driver"] = info
 
